@@ -154,7 +154,7 @@ Proof.
       apply do_cancel_bext in D. simpl in D. apply IH in H. eapply bext_trans; eauto.
 Qed.
 
-Lemma completion_loop_bext fuel wid : forall i s s', completion_loop fuel wid i s = Some s' ->
+Lemma completion_loop_py_bext fuel wid : forall i s s', completion_loop_py fuel wid i s = Some s' ->
   bext (c_boxes s) (c_counter s) (c_boxes s') (c_counter s').
 Proof.
   induction fuel as [|fuel IH]; intros i s s' H; simpl in H.
@@ -208,7 +208,7 @@ Qed.
 
 Lemma do_cancel_counter wid mb s s1 : do_cancel wid mb s = Some s1 -> c_counter s1 = c_counter s.
 Proof. unfold do_cancel. intros H. repeat dmH H; inv H; auto. Qed.
-Lemma completion_loop_counter fuel wid : forall i s s', completion_loop fuel wid i s = Some s' -> c_counter s' = c_counter s.
+Lemma completion_loop_py_counter fuel wid : forall i s s', completion_loop_py fuel wid i s = Some s' -> c_counter s' = c_counter s.
 Proof. induction fuel as [|fuel IH]; intros i s s' H; simpl in H. inv H; auto.
   repeat dmH H; try discriminate; try (inv H; auto; fail).
   apply IH in H. simpl in H. auto.
@@ -244,11 +244,58 @@ Proof. unfold desired_result. intros H. destruct (rt_desired rt); [|inv H; apply
   destruct (lookup_b n boxes) eqn:L; [|discriminate].
   repeat dmH H; inv H. apply bext_put_old; congruence. apply bext_remove. Qed.
 
+(* ------------------------------------------------------------------ the repaired completion loop has the same footprint *)
+Lemma completion_loop_copy_bext wid l : forall s s', completion_loop_copy wid l s = Some s' ->
+  bext (c_boxes s) (c_counter s) (c_boxes s') (c_counter s').
+Proof.
+  induction l as [|mb r IH]; intros s s' H; simpl in H. inv H. apply bext_refl.
+  destruct (lookup_b mb (c_boxes s)) eqn:L; [|discriminate]. destruct (box_ready m).
+  - apply IH in H. simpl in H. eapply bext_trans; [|exact H]. apply bext_remove.
+  - destruct (do_cancel wid mb s) eqn:D; [|discriminate]. apply do_cancel_bext in D. apply IH in H. eapply bext_trans; eauto.
+Qed.
+Lemma completion_loop_copy_counter wid l : forall s s', completion_loop_copy wid l s = Some s' -> c_counter s' = c_counter s.
+Proof. induction l as [|mb r IH]; intros s s' H; simpl in H. inv H; auto.
+  destruct (lookup_b mb (c_boxes s)) eqn:L; [|discriminate]. destruct (box_ready m).
+  apply IH in H. simpl in H. auto.
+  destruct (do_cancel wid mb s) eqn:D; [|discriminate]. apply IH in H. rewrite H. eapply do_cancel_counter; eauto. Qed.
+(* ... and really visits every mailbox the task owns *)
+Lemma completion_loop_copy_none wid l x : forall s s', completion_loop_copy wid l s = Some s' ->
+  lookup_b x (c_boxes s) = None -> lookup_b x (c_boxes s') = None.
+Proof.
+  induction l as [|mb0 r IH]; intros s s' H N; simpl in H. inv H; auto.
+  destruct (lookup_b mb0 (c_boxes s)) eqn:L; [|discriminate]. destruct (box_ready m).
+  - eapply IH; eauto. simpl. apply lb_remove_none; auto.
+  - destruct (do_cancel wid mb0 s) eqn:D; [|discriminate]. eapply IH; eauto.
+    unfold do_cancel in D. rewrite L in D. destruct (mem_nat mb0 (rt_owned (c_rt s))); inv D. simpl. apply lb_remove_none; auto.
+Qed.
+Lemma completion_loop_copy_all wid l : forall s s', completion_loop_copy wid l s = Some s' ->
+  forall mb, In mb l -> lookup_b mb (c_boxes s') = None.
+Proof.
+  induction l as [|mb0 r IH]; intros s s' H mb IN; simpl in H. destruct IN.
+  destruct (lookup_b mb0 (c_boxes s)) eqn:L; [|discriminate]. destruct (box_ready m).
+  - destruct IN as [<-|IN]; [|eapply IH; eauto]. eapply completion_loop_copy_none; eauto. simpl. apply lb_remove_same.
+  - destruct (do_cancel wid mb0 s) eqn:D; [|discriminate].
+    destruct IN as [<-|IN]; [|eapply IH; eauto]. eapply completion_loop_copy_none; eauto.
+    unfold do_cancel in D. rewrite L in D. destruct (mem_nat mb0 (rt_owned (c_rt s))); inv D. simpl. apply lb_remove_same.
+Qed.
+
+(* fixes/D14.patch: when the repaired loop finishes, none of the mailboxes the completed task still owned exists *)
+Lemma completion_fixed_all wid st st' : completion true wid st = Some st' ->
+  forall mb, In mb (rt_owned (c_rt st)) -> lookup_b mb (c_boxes st') = None.
+Proof. unfold completion. apply completion_loop_copy_all. Qed.
+
+Section FixT.
+Variable fx : bool.
+
+Lemma completion_bext wid s s' : completion fx wid s = Some s' -> bext (c_boxes s) (c_counter s) (c_boxes s') (c_counter s').
+Proof. unfold completion. destruct fx. apply completion_loop_copy_bext. apply completion_loop_py_bext. Qed.
+Lemma completion_counter wid s s' : completion fx wid s = Some s' -> c_counter s' = c_counter s.
+Proof. unfold completion. destruct fx. apply completion_loop_copy_counter. apply completion_loop_py_counter. Qed.
 Ltac rp H := match type of H with context[raise_path ?a ?b ?c ?d ?e] =>
   let R := fresh "RP" in destruct (raise_path a b c d e) as [[? ?] ?] eqn:R; apply raise_path_env in R;
   destruct R as (R1 & R2 & R3 & R4) end.
 
-Lemma wstep_fields P w0 w' out lab : wstep P w0 = Some (w', out, lab) ->
+Lemma wstep_fields P w0 w' out lab : wstep fx P w0 = Some (w', out, lab) ->
   bext (w_boxes w0) (w_counter w0) (w_boxes w') (w_counter w') /\ w_id w' = w_id w0 /\ w_cancelled w' = w_cancelled w0.
 Proof.
   unfold wstep. intros H. dmH H; [discriminate|].
@@ -275,9 +322,9 @@ Proof.
       simpl in *. rewrite R1, R2, R3, R4. auto.
   - (* return *)
     match type of H with context[match ?x with Some _ => _ | None => None end] => destruct x as [[[w2 out2] lab2]|] eqn:SH end; [|discriminate].
-    match type of H with context[completion_loop ?a ?b ?c ?d] => destruct (completion_loop a b c d) as [s2|] eqn:CL end; [|discriminate].
+    match type of H with context[completion ?a ?b ?c] => destruct (completion a b c) as [s2|] eqn:CL end; [|discriminate].
     inv H. simpl.
-    pose proof (completion_loop_counter _ _ _ _ _ CL) as CC. apply completion_loop_bext in CL. simpl in *.
+    pose proof (completion_counter _ _ _ CL) as CC. apply completion_bext in CL. simpl in *.
     assert (W2 : bext (c_boxes s) (c_counter s) (w_boxes w2) (w_counter w2) /\ w_id w2 = w_id w /\ w_cancelled w2 = w_cancelled w).
     { destruct (t_addr (rt_task rt0)) as [[dst x1] x2]. destruct (dst =? w_id w).
       - destruct (handle_result (dst, x1, x2) (t_prog (rt_task rt0)) _) as [[w2' l2]|] eqn:HR; [|discriminate].
@@ -441,7 +488,7 @@ Proof.
     + intros; discriminate.
 Qed.
 
-Lemma completion_loop_labels fuel wid : forall i s s', completion_loop fuel wid i s = Some s' ->
+Lemma completion_loop_py_labels fuel wid : forall i s s', completion_loop_py fuel wid i s = Some s' ->
   exists add, c_lab s' = c_lab s ++ add /\
     Forall (fun l => exists mb n, l = LCancel wid (t_addr (rt_task (c_rt s))) mb n /\ In mb (rt_owned (c_rt s))) add.
 Proof.
@@ -458,6 +505,25 @@ Proof.
       constructor. eauto. eapply Forall_impl; [|exact H2]. intros l (mb & k & E1 & E2). exists mb, k. split; auto.
       rewrite D3 in E2. apply In_remove_first in E2; auto.
 Qed.
+
+Lemma completion_loop_copy_labels wid l : forall s s', completion_loop_copy wid l s = Some s' ->
+  exists add, c_lab s' = c_lab s ++ add /\
+    Forall (fun x => exists mb n, x = LCancel wid (t_addr (rt_task (c_rt s))) mb n /\ In mb (rt_owned (c_rt s))) add.
+Proof.
+  induction l as [|mb r IH]; intros s s' H; simpl in H. inv H. exists []. rewrite app_nil_r; auto.
+  destruct (lookup_b mb (c_boxes s)) eqn:L; [|discriminate]. destruct (box_ready m).
+  - apply IH in H. simpl in H. exact H.
+  - destruct (do_cancel wid mb s) eqn:D; [|discriminate].
+    apply do_cancel_spec in D. destruct D as (D1 & D2 & D3 & n0 & D4).
+    apply IH in H. destruct H as (add & H1 & H2). rewrite D1 in *.
+    exists (LCancel wid (t_addr (rt_task (c_rt s))) mb n0 :: add). split. rewrite H1, D4, <- app_assoc; auto.
+    constructor. eauto. eapply Forall_impl; [|exact H2]. intros x (mb' & k & E1 & E2). exists mb', k. split; auto.
+    rewrite D3 in E2. apply In_remove_first in E2; auto.
+Qed.
+Lemma completion_labels wid s s' : completion fx wid s = Some s' ->
+  exists add, c_lab s' = c_lab s ++ add /\
+    Forall (fun x => exists mb n, x = LCancel wid (t_addr (rt_task (c_rt s))) mb n /\ In mb (rt_owned (c_rt s))) add.
+Proof. unfold completion. destruct fx. apply completion_loop_copy_labels. apply completion_loop_py_labels. Qed.
 
 Lemma desired_result_spec wid rt boxes boxes1 rt1 l1 : desired_result wid rt boxes = Some (boxes1, rt1, l1) ->
   rt_task rt1 = rt_task rt /\ (forall mb, In mb (rt_owned rt1) -> In mb (rt_owned rt))
@@ -482,7 +548,7 @@ Proof. unfold handle_result. destruct ra as [[x y] z]. intros H w0. repeat dmH H
 Lemma keys_ok_put_same w a rt : keys_ok w -> t_addr (rt_task rt) = a -> forall x rt', In (x, rt') (put_t a rt (w_tasks w)) -> t_addr (rt_task rt') = x.
 Proof. intros K E x rt' H. apply In_put_inv in H. destruct H as [H|H]. inv H; auto. apply K; auto. Qed.
 
-Lemma wstep_labels P w0 w' out lab : wstep P w0 = Some (w', out, lab) -> keys_ok w0 ->
+Lemma wstep_labels P w0 w' out lab : wstep fx P w0 = Some (w', out, lab) -> keys_ok w0 ->
   Forall (lab_ok w0) lab /\ keys_ok w'.
 Proof.
   unfold wstep. intros H KO. dmH H; [discriminate|].
@@ -528,8 +594,8 @@ Proof.
       apply Forall_app; split; auto.
       intros x rt' IN. rewrite T1 in IN. simpl in IN. eapply (keys_ok_put_same w); [exact KW| |exact IN]; rewrite RT; auto.
   - match type of H with context[match ?x with Some _ => _ | None => None end] => destruct x as [[[w2 out2] lab2]|] eqn:SH end; [|discriminate].
-    match type of H with context[completion_loop ?a ?b ?c ?d] => destruct (completion_loop a b c d) as [s2|] eqn:CL end; [|discriminate].
-    inv H. apply completion_loop_labels in CL. simpl in CL. destruct CL as (add2 & CL1 & CL2).
+    match type of H with context[completion ?a ?b ?c] => destruct (completion a b c) as [s2|] eqn:CL end; [|discriminate].
+    inv H. apply completion_labels in CL. simpl in CL. destruct CL as (add2 & CL1 & CL2).
     assert (W2 : Forall (lab_ok w0) lab2 /\ w_tasks w2 = w_tasks w).
     { fold a in SH. destruct a as [[dst x1] x2]. destruct (dst =? w_id w).
       - match type of SH with context[handle_result ?a ?b ?c] => destruct (handle_result a b c) as [[w2' l2]|] eqn:HR end; [|discriminate].
@@ -557,7 +623,7 @@ Definition wrecv (m : msg) (ws : wstate) : option (wstate * list label) :=
   | _ => None
   end.
 
-Lemma step_down P s w s' l : step P s (EDown w) = Some (s', l) ->
+Lemma step_down P s w s' l : step fx P s (EDown w) = Some (s', l) ->
   exists m q ws ws', nth_error (sy_down s) w = Some (m :: q) /\ nth_error (sy_workers s) w = Some ws
     /\ wrecv m ws = Some (ws', l)
     /\ s' = mkSys (set_nth w ws' (sy_workers s)) (sy_server s) (sy_up s) (set_nth w q (sy_down s)) (sy_cli s) (sy_issued s).
@@ -569,20 +635,20 @@ Proof.
   inv H. do 4 eexists. repeat split; eauto.
 Qed.
 
-Lemma step_step P s w s' l : step P s (EStep w) = Some (s', l) ->
+Lemma step_step P s w s' l : step fx P s (EStep w) = Some (s', l) ->
   exists ws q ws' out, nth_error (sy_workers s) w = Some ws /\ nth_error (sy_up s) w = Some q
-    /\ wstep P ws = Some (ws', out, l)
+    /\ wstep fx P ws = Some (ws', out, l)
     /\ s' = mkSys (set_nth w ws' (sy_workers s)) (sy_server s) (set_nth w (q ++ out) (sy_up s)) (sy_down s)
                   (sy_cli s) (sy_issued s ++ cancels_of out).
 Proof.
   unfold step. intros H.
   destruct (nth_error (sy_workers s) w) as [ws|] eqn:W; try discriminate.
   destruct (nth_error (sy_up s) w) as [q|] eqn:U; try discriminate.
-  destruct (wstep P ws) as [[[ws1 out] lab]|] eqn:R; [|discriminate].
+  destruct (wstep fx P ws) as [[[ws1 out] lab]|] eqn:R; [|discriminate].
   inv H. do 4 eexists. repeat split; eauto.
 Qed.
 
-Lemma step_up P s w asg s' l : step P s (EUp w asg) = Some (s', l) ->
+Lemma step_up P s w asg s' l : step fx P s (EUp w asg) = Some (s', l) ->
   exists m q srv o lab, nth_error (sy_up s) w = Some (m :: q)
     /\ sup (length (sy_workers s)) m asg (sy_server s) = Some (srv, o, lab)
     /\ s' = apply_sout o [] srv (mkSys (sy_workers s) (sy_server s) (set_nth w q (sy_up s)) (sy_down s) (sy_cli s) (sy_issued s))
@@ -594,7 +660,7 @@ Proof.
   inv H. do 5 eexists. repeat split; eauto.
 Qed.
 
-Lemma step_client P s c r asg s' l : step P s (EClient c r asg) = Some (s', l) ->
+Lemma step_client P s c r asg s' l : step fx P s (EClient c r asg) = Some (s', l) ->
   exists srv o iss, sreq (length (sy_workers s)) c r asg (sy_server s) = Some (srv, o, iss)
     /\ s' = apply_sout o iss srv s /\ l = map (fun p => LToClient (fst p) (snd p)) (o_cli o).
 Proof.
@@ -710,7 +776,7 @@ Proof.
       * intros w a mb k [IN|IN]. inv IN. eapply bext_cdrop; eauto. eapply H4; eauto.
 Qed.
 
-Lemma completion_loop_cancels fuel wid : forall i s s', completion_loop fuel wid i s = Some s' -> blt (c_boxes s) (c_counter s) ->
+Lemma completion_loop_py_cancels fuel wid : forall i s s', completion_loop_py fuel wid i s = Some s' -> blt (c_boxes s) (c_counter s) ->
   exists addo addl, c_out s' = c_out s ++ addo /\ c_lab s' = c_lab s ++ addl
     /\ outs_dropped wid (c_boxes s') (c_counter s') addo /\ labs_dropped (c_boxes s') (c_counter s') addl.
 Proof.
@@ -724,7 +790,7 @@ Proof.
     + destruct (do_cancel wid n s) eqn:D; [|discriminate].
       pose proof (do_cancel_bext _ _ _ _ D) as DB.
       apply do_cancel_out in D; auto. destruct D as (n0 & D1 & D2 & D3).
-      pose proof (completion_loop_bext _ _ _ _ _ H) as RB.
+      pose proof (completion_loop_py_bext _ _ _ _ _ H) as RB.
       apply IH in H; [|eapply bext_blt; eauto].
       destruct H as (addo & addl & H1 & H2 & H3 & H4).
       exists (cancel_msgs wid n 0 n0 ++ addo), (LCancel wid (t_addr (rt_task (c_rt s))) n n0 :: addl).
@@ -733,6 +799,32 @@ Proof.
         apply cancels_of_cancel_msgs in IN. destruct IN as [j IN]. exists n, j. split; auto. eapply bext_cdrop; eauto.
       * intros w a mb k [IN|IN]. inv IN. eapply bext_cdrop; eauto. eapply H4; eauto.
 Qed.
+
+Lemma completion_loop_copy_cancels wid l : forall s s', completion_loop_copy wid l s = Some s' -> blt (c_boxes s) (c_counter s) ->
+  exists addo addl, c_out s' = c_out s ++ addo /\ c_lab s' = c_lab s ++ addl
+    /\ outs_dropped wid (c_boxes s') (c_counter s') addo /\ labs_dropped (c_boxes s') (c_counter s') addl.
+Proof.
+  induction l as [|mb r IH]; intros s s' H B; simpl in H.
+  - inv H. exists [], []. rewrite !app_nil_r. split; auto. split; auto. split. apply outs_dropped_nil. apply labs_dropped_nil.
+  - destruct (lookup_b mb (c_boxes s)) eqn:L; [|discriminate]. destruct (box_ready m).
+    + apply IH in H; [|simpl; eapply bext_blt; [apply bext_remove|auto]]. simpl in H. exact H.
+    + destruct (do_cancel wid mb s) eqn:D; [|discriminate].
+      pose proof (do_cancel_bext _ _ _ _ D) as DB.
+      apply do_cancel_out in D; auto. destruct D as (n0 & D1 & D2 & D3).
+      pose proof (completion_loop_copy_bext _ _ _ _ H) as RB.
+      apply IH in H; [|eapply bext_blt; eauto].
+      destruct H as (addo & addl & H1 & H2 & H3 & H4).
+      exists (cancel_msgs wid mb 0 n0 ++ addo), (LCancel wid (t_addr (rt_task (c_rt s))) mb n0 :: addl).
+      rewrite H1, H2, D1, D2, <- !app_assoc. simpl. split; auto. split; auto. split.
+      * intros a IN. rewrite cancels_of_app in IN. apply in_app_or in IN. destruct IN as [IN|IN]; auto.
+        apply cancels_of_cancel_msgs in IN. destruct IN as [j IN]. exists mb, j. split; auto. eapply bext_cdrop; eauto.
+      * intros w a mb' k [IN|IN]. inv IN. eapply bext_cdrop; eauto. eapply H4; eauto.
+Qed.
+Lemma completion_cancels wid s s' : completion fx wid s = Some s' -> blt (c_boxes s) (c_counter s) ->
+  exists addo addl, c_out s' = c_out s ++ addo /\ c_lab s' = c_lab s ++ addl
+    /\ outs_dropped wid (c_boxes s') (c_counter s') addo /\ labs_dropped (c_boxes s') (c_counter s') addl.
+Proof. unfold completion. destruct fx. apply completion_loop_copy_cancels. apply completion_loop_py_cancels. Qed.
+
 
 Definition nocl (l : list label) : Prop := forall w a mb n, ~ In (LCancel w a mb n) l.
 Lemma nocl_nil : nocl []. Proof. intros w a mb n []. Qed.
@@ -775,7 +867,7 @@ Lemma handle_result_nocl ra v w w' l : handle_result ra v w = Some (w', l) -> no
 Proof. unfold handle_result. destruct ra as [[x y] z]. intros H. repeat dmH H; inv H; try apply nocl_nil.
   intros ? ? ? ? [IN|[]]; discriminate. Qed.
 
-Lemma wstep_cancels P w0 w' out lab : wstep P w0 = Some (w', out, lab) -> blt (w_boxes w0) (w_counter w0) ->
+Lemma wstep_cancels P w0 w' out lab : wstep fx P w0 = Some (w', out, lab) -> blt (w_boxes w0) (w_counter w0) ->
   outs_dropped (w_id w0) (w_boxes w') (w_counter w') out /\ labs_dropped (w_boxes w') (w_counter w') lab
   /\ blt (w_boxes w') (w_counter w').
 Proof.
@@ -812,7 +904,7 @@ Proof.
         apply raise_path_out in RP. destruct RP as (addo2 & e & X1 & X2 & _). subst. rewrite R1, E3, E4.
         apply outs_dropped_app; [apply outs_dropped_app; auto|apply outs_dropped_none; auto].
     + match type of H with context[match ?x with Some _ => _ | None => None end] => destruct x as [[[w2 out2] lab2]|] eqn:SH end; [|discriminate].
-      match type of H with context[completion_loop ?a ?b ?c ?d] => destruct (completion_loop a b c d) as [s2|] eqn:CL end; [|discriminate].
+      match type of H with context[completion ?a ?b ?c] => destruct (completion a b c) as [s2|] eqn:CL end; [|discriminate].
       inv H. simpl.
       assert (W2 : bext (c_boxes s) (c_counter s) (w_boxes w2) (w_counter w2) /\ exists x, out2 = c_out s ++ [x] /\ cancels_of [x] = []).
       { destruct (t_addr (rt_task rt0)) as [[dst x1] x2]. destruct (dst =? w_id w).
@@ -820,8 +912,8 @@ Proof.
           inv SH. pose proof (handle_result_fields _ _ _ _ _ HR) as HF. simpl in HF. split; [tauto|]. eexists; split; eauto.
         - inv SH. simpl. split; [apply bext_refl|]. eexists; split; eauto. }
       destruct W2 as (W2a & x & W2b & W2c). subst out2.
-      pose proof (completion_loop_bext _ _ _ _ _ CL) as CB. pose proof (completion_loop_counter _ _ _ _ _ CL) as CC. simpl in CB, CC.
-      apply completion_loop_cancels in CL; [|simpl; eapply bext_blt; [exact W2a|eapply bext_blt; eauto]].
+      pose proof (completion_bext _ _ _ CL) as CB. pose proof (completion_counter _ _ _ CL) as CC. simpl in CB, CC.
+      apply completion_cancels in CL; [|simpl; eapply bext_blt; [exact W2a|eapply bext_blt; eauto]].
       simpl in CL. destruct CL as (addo2 & addl2 & C1 & C2 & C3 & C4). rewrite C1, R1. rewrite S1 in C3. rewrite <- CC.
       apply outs_dropped_app; auto. apply outs_dropped_app; [apply outs_dropped_app; auto|apply outs_dropped_none; auto].
       eapply outs_dropped_mono; [|exact R3]. eapply bext_trans; eauto.
@@ -862,7 +954,7 @@ Proof.
         apply raise_path_out in RP. destruct RP as (addo2 & e & X1 & X2 & X3 & X4). subst. rewrite R2, E3, E4.
         apply labs_dropped_app; [apply labs_dropped_app; auto; apply labs_dropped_nocl; auto|apply labs_dropped_nocl; auto].
     + match type of H with context[match ?x with Some _ => _ | None => None end] => destruct x as [[[w2 out2] lab2]|] eqn:SH end; [|discriminate].
-      match type of H with context[completion_loop ?a ?b ?c ?d] => destruct (completion_loop a b c d) as [s2|] eqn:CL end; [|discriminate].
+      match type of H with context[completion ?a ?b ?c] => destruct (completion a b c) as [s2|] eqn:CL end; [|discriminate].
       inv H. simpl.
       assert (W2 : bext (c_boxes s) (c_counter s) (w_boxes w2) (w_counter w2) /\ exists x, lab2 = c_lab s ++ x /\ nocl x).
       { destruct (t_addr (rt_task rt0)) as [[dst x1] x2]. destruct (dst =? w_id w).
@@ -871,8 +963,8 @@ Proof.
           eexists; split. rewrite <- app_assoc; eauto. apply nocl_app. intros a b mb n [IN|[]]; discriminate. eapply handle_result_nocl; eauto.
         - inv SH. simpl. split; [apply bext_refl|]. eexists; split; eauto. intros a b mb n [IN|[]]; discriminate. }
       destruct W2 as (W2a & x & W2b & W2c). subst lab2.
-      pose proof (completion_loop_bext _ _ _ _ _ CL) as CB. pose proof (completion_loop_counter _ _ _ _ _ CL) as CC. simpl in CB, CC.
-      apply completion_loop_cancels in CL; [|simpl; eapply bext_blt; [exact W2a|eapply bext_blt; eauto]].
+      pose proof (completion_bext _ _ _ CL) as CB. pose proof (completion_counter _ _ _ CL) as CC. simpl in CB, CC.
+      apply completion_cancels in CL; [|simpl; eapply bext_blt; [exact W2a|eapply bext_blt; eauto]].
       simpl in CL. destruct CL as (addo2 & addl2 & C1 & C2 & C3 & C4). rewrite C2, R2. rewrite <- CC.
       apply labs_dropped_app; [|apply labs_dropped_nocl; intros a b mb n [IN|[]]; discriminate].
       apply labs_dropped_app; auto. apply labs_dropped_app; [apply labs_dropped_app; [apply labs_dropped_nocl; auto|]|apply labs_dropped_nocl; auto].
@@ -941,7 +1033,7 @@ Proof.
   - eapply DD; eauto.
 Qed.
 
-Lemma sinv_step P s e s' l : step P s e = Some (s', l) -> sinv s -> sinv s'.
+Lemma sinv_step P s e s' l : step fx P s e = Some (s', l) -> sinv s -> sinv s'.
 Proof.
   intros H [[LU LD WK] BL DR]. destruct e.
   - apply step_client in H. destruct H as (srv & o & iss & H1 & H2 & _). subst. unfold apply_sout. constructor; simpl.
@@ -980,17 +1072,17 @@ Qed.
 
 (* properties of every step along a run *)
 Lemma run_inv P (I : sys -> Prop) (Q : label -> Prop) :
-  (forall s e s' l, I s -> step P s e = Some (s', l) -> I s' /\ Forall Q l) ->
-  forall evs s s' l, I s -> run P s evs = Some (s', l) -> I s' /\ Forall Q l.
+  (forall s e s' l, I s -> step fx P s e = Some (s', l) -> I s' /\ Forall Q l) ->
+  forall evs s s' l, I s -> run fx P s evs = Some (s', l) -> I s' /\ Forall Q l.
 Proof.
   intros ST. induction evs as [|e r IH]; intros s s' l HI H; simpl in H.
   - inv H. auto.
-  - destruct (step P s e) as [[s1 l1]|] eqn:S; [|discriminate].
-    destruct (run P s1 r) as [[s2 l2]|] eqn:R; [|discriminate]. inv H.
+  - destruct (step fx P s e) as [[s1 l1]|] eqn:S; [|discriminate].
+    destruct (run fx P s1 r) as [[s2 l2]|] eqn:R; [|discriminate]. inv H.
     destruct (ST _ _ _ _ HI S) as [I1 Q1]. destruct (IH _ _ _ I1 R) as [I2 Q2]. split; auto. apply Forall_app; auto.
 Qed.
 
-Lemma run_sinv P evs : forall s s' l, sinv s -> run P s evs = Some (s', l) -> sinv s'.
+Lemma run_sinv P evs : forall s s' l, sinv s -> run fx P s evs = Some (s', l) -> sinv s'.
 Proof. intros s s' l HI H. eapply (run_inv P sinv (fun _ => True)); eauto.
   intros. split. eapply sinv_step; eauto. apply Forall_forall; auto. Qed.
 
@@ -1025,7 +1117,7 @@ Qed.
 Lemma sup_labels nw m asg srv srv' o lab : sup nw m asg srv = Some (srv', o, lab) -> Forall (fun x => main_label x = false) lab.
 Proof. intros H. destruct m; simpl in H; repeat dmH H; inv H; auto. Qed.
 
-Lemma step_nonmain P s e s' l : step P s e = Some (s', l) -> (forall k, e <> EStep k) -> Forall (fun x => main_label x = false) l.
+Lemma step_nonmain P s e s' l : step fx P s e = Some (s', l) -> (forall k, e <> EStep k) -> Forall (fun x => main_label x = false) l.
 Proof.
   intros H N. destruct e.
   - apply step_client in H. destruct H as (srv & o & iss & H1 & H2 & ->).
@@ -1042,7 +1134,7 @@ Qed.
 Definition cancel_handled (s : sys) (k : nat) (c : addr) : Prop :=
   exists ws, nth_error (sy_workers s) k = Some ws /\ In c (w_cancelled ws).
 
-Lemma step_cancelled_mono P s e s' l k c : step P s e = Some (s', l) -> sinv s ->
+Lemma step_cancelled_mono P s e s' l k c : step fx P s e = Some (s', l) -> sinv s ->
   cancel_handled s k c -> cancel_handled s' k c.
 Proof.
   intros H [[LU LD WK] BL DR] (ws & W & C). destruct e.
@@ -1060,12 +1152,12 @@ Proof.
     + exists ws. simpl. split; auto. rewrite nth_error_set_nth_other; auto.
 Qed.
 
-Lemma step_lab_ok P s k s' l : step P s (EStep k) = Some (s', l) -> sinv s ->
+Lemma step_lab_ok P s k s' l : step fx P s (EStep k) = Some (s', l) -> sinv s ->
   exists ws, nth_error (sy_workers s) k = Some ws /\ w_id ws = S k /\ Forall (lab_ok ws) l.
 Proof. intros H [[LU LD WK] BL DR]. apply step_step in H. destruct H as (ws0 & q & ws' & out & H1 & H2 & H3 & ->).
   destruct (WK _ _ H1) as [K1 K2]. exists ws0. split; auto. split; auto. eapply wstep_labels; eauto. Qed.
 
-Lemma step_run_dead P s e s' l k c : step P s e = Some (s', l) -> sinv s -> cancel_handled s k c ->
+Lemma step_run_dead P s e s' l k c : step fx P s e = Some (s', l) -> sinv s -> cancel_handled s k c ->
   Forall (fun x => forall t, x = LRun (S k) t -> desc c t = false) l.
 Proof.
   intros H I (ws & W & C).
@@ -1079,9 +1171,9 @@ Proof.
 Qed.
 
 Theorem descendants_not_run P nw evs1 k evs2 s1 l1 s2 l2 s3 l3 c q :
-  run P (init_sys nw) evs1 = Some (s1, l1) ->
-  nth_error (sy_down s1) k = Some (MCancel c :: q) -> step P s1 (EDown k) = Some (s2, l2) ->
-  run P s2 evs2 = Some (s3, l3) ->
+  run fx P (init_sys nw) evs1 = Some (s1, l1) ->
+  nth_error (sy_down s1) k = Some (MCancel c :: q) -> step fx P s1 (EDown k) = Some (s2, l2) ->
+  run fx P s2 evs2 = Some (s3, l3) ->
   forall t, In (LRun (S k) t) l3 -> desc c t = false.
 Proof.
   intros R1 HD ST R2 t IN.
@@ -1101,7 +1193,7 @@ Qed.
 Definition dropped_at (s : sys) (k mb : nat) : Prop :=
   exists ws, nth_error (sy_workers s) k = Some ws /\ cdrop (w_boxes ws) (w_counter ws) mb.
 
-Lemma step_dropped_mono P s e s' l k mb : step P s e = Some (s', l) -> sinv s -> dropped_at s k mb -> dropped_at s' k mb.
+Lemma step_dropped_mono P s e s' l k mb : step fx P s e = Some (s', l) -> sinv s -> dropped_at s k mb -> dropped_at s' k mb.
 Proof.
   intros H [[LU LD WK] BL DR] (ws & W & C). destruct e.
   - apply step_client in H. destruct H as (srv & o & iss & H1 & -> & _). exists ws; auto.
@@ -1118,7 +1210,7 @@ Proof.
     + exists ws. simpl. split; auto. rewrite nth_error_set_nth_other; auto.
 Qed.
 
-Lemma step_no_obs P s e s' l k mb : step P s e = Some (s', l) -> sinv s -> dropped_at s k mb ->
+Lemma step_no_obs P s e s' l k mb : step fx P s e = Some (s', l) -> sinv s -> dropped_at s k mb ->
   Forall (fun x => forall a nx vals, x <> LObs (S k) a mb nx vals) l.
 Proof.
   intros H I (ws & W & C).
@@ -1131,7 +1223,7 @@ Proof.
 Qed.
 
 (* the step that executes `cancel` leaves the mailbox dropped *)
-Lemma step_cancel_drops P s e s' l wid a mb n : step P s e = Some (s', l) -> sinv s -> In (LCancel wid a mb n) l ->
+Lemma step_cancel_drops P s e s' l wid a mb n : step fx P s e = Some (s', l) -> sinv s -> In (LCancel wid a mb n) l ->
   exists k, wid = S k /\ e = EStep k /\ dropped_at s' k mb.
 Proof.
   intros H I IN.
@@ -1146,8 +1238,8 @@ Proof.
 Qed.
 
 Theorem no_delivery P nw evs1 e evs2 s1 l1 s2 l2 s3 l3 wid a mb n :
-  run P (init_sys nw) evs1 = Some (s1, l1) -> step P s1 e = Some (s2, l2) -> In (LCancel wid a mb n) l2 ->
-  run P s2 evs2 = Some (s3, l3) ->
+  run fx P (init_sys nw) evs1 = Some (s1, l1) -> step fx P s1 e = Some (s2, l2) -> In (LCancel wid a mb n) l2 ->
+  run fx P s2 evs2 = Some (s3, l3) ->
   exists k, wid = S k /\ e = EStep k
     /\ (forall a' nx vals, ~ In (LObs wid a' mb nx vals) l3)
     /\ dropped_at s3 k mb.
@@ -1185,7 +1277,7 @@ Definition d8_run : list event :=
     EUp 0 [] ].
 
 Lemma d8_witness :
-  exists s labs, run d8_progs (init_sys 1) d8_run = Some (s, labs)
+  exists s labs, run false d8_progs (init_sys 1) d8_run = Some (s, labs)
     /\ quiescent s = true /\ clean s = false
     /\ forallb no_orphans (sy_workers s) = true.
 Proof. eexists. eexists. split; [vm_compute; reflexivity|]. vm_compute. auto. Qed.
@@ -1201,7 +1293,7 @@ Definition d14_run : list event :=
     EStep 0; EUp 0 []; EUp 0 [] ].
 
 Lemma d14_witness :
-  exists s labs, run d14_progs (init_sys 1) d14_run = Some (s, labs)
+  exists s labs, run false d14_progs (init_sys 1) d14_run = Some (s, labs)
     /\ quiescent s = true
     /\ In (LLeft 1 (0, 0, 0) [1]) labs                    (* mailbox 1 survives the completion of its owner *)
     /\ In (LRun 1 (mkTask (1, 1, 0) [(0, 0, 0)] 0 1)) labs (* the child nobody waits for is still run *)
@@ -1224,7 +1316,7 @@ Theorem await_fails P w0 rt0 w out0 lab0 prog f mb (nx : bool) :
   let kind := if nx then K_NEXT_COMPLETED else K_AWAIT_CANCELLED in
   let sent := negb (dead_on w0 (rt_task rt0)) in
   exists w',
-    wstep P w0 = Some (w', out0 ++ (if sent then [MError (t_comp (rt_task rt0)) kind] else []),
+    wstep fx P w0 = Some (w', out0 ++ (if sent then [MError (t_comp (rt_task rt0)) kind] else []),
                        (lab0 ++ [LRun (w_id w0) (rt_task rt0)]) ++ [LErr (w_id w0) (t_addr (rt_task rt0)) kind sent])
     /\ w_boxes w' = w_boxes w0.
 Proof.
@@ -1314,7 +1406,7 @@ Proof.
   - exfalso. apply nth_error_None in E. rewrite <- (length_push_down d) in E. apply nth_error_None in E. congruence.
 Qed.
 
-Lemma csound_step P s e s' l : step P s e = Some (s', l) -> sinv s -> csound s -> csound s'.
+Lemma csound_step P s e s' l : step fx P s e = Some (s', l) -> sinv s -> csound s -> csound s'.
 Proof.
   intros H [[LU LD WK] BL DR] [CW CU CD]. destruct e.
   - apply step_client in H. destruct H as (srv & o & iss & H1 & -> & _). apply sreq_down in H1. constructor; simpl.
@@ -1413,7 +1505,7 @@ Proof.
   destruct o2; inv H; exact HA2.
 Qed.
 
-Lemma wstep_keeps P w0 w' out lab a : wstep P w0 = Some (w', out, lab) -> holds_addr w0 a ->
+Lemma wstep_keeps P w0 w' out lab a : wstep fx P w0 = Some (w', out, lab) -> holds_addr w0 a ->
   holds_addr w' a \/ exists t, In (LDone (w_id w0) t) lab /\ t_addr t = a.
 Proof.
   unfold wstep. intros H HA. dmH H; [discriminate|].
@@ -1439,8 +1531,8 @@ Proof.
     + match type of H with context[raise_path ?a ?b ?c ?d ?e] => destruct (raise_path a b c d e) as [[w1 o1] lb1] eqn:RP end.
       inv H. apply raise_path_spec in RP. destruct RP as (T1 & T2 & _). simpl in *. rewrite RT in T1. left. eapply KEEP; eauto.
   - match type of H with context[match ?x with Some _ => _ | None => None end] => destruct x as [[[w2 out2] lab2]|] eqn:SH end; [|discriminate].
-    match type of H with context[completion_loop ?a ?b ?c ?d] => destruct (completion_loop a b c d) as [s2|] eqn:CL end; [|discriminate].
-    inv H. apply completion_loop_labels in CL. simpl in CL. destruct CL as (add2 & CL1 & _).
+    match type of H with context[completion ?a ?b ?c] => destruct (completion a b c) as [s2|] eqn:CL end; [|discriminate].
+    inv H. apply completion_labels in CL. simpl in CL. destruct CL as (add2 & CL1 & _).
     assert (W2 : w_tasks w2 = w_tasks w /\ w_delayed w2 = w_delayed w /\ exists x, lab2 = (c_lab s ++ [LDone (w_id w) (rt_task rt0)]) ++ x).
     { destruct (t_addr (rt_task rt0)) as [[dst x1] x2]. destruct (dst =? w_id w).
       - match type of SH with context[handle_result ?a ?b ?c] => destruct (handle_result a b c) as [[w2' l2]|] eqn:HR end; [|discriminate].
@@ -1461,7 +1553,7 @@ Proof. unfold dead. rewrite existsb_exists. tauto. Qed.
 Lemma dead_on_iff w t : dead_on w t = true <-> exists c, In c (w_cancelled w) /\ desc c t = true.
 Proof. unfold dead_on. rewrite existsb_exists. tauto. Qed.
 
-Lemma step_issued_mono P s e s' l : step P s e = Some (s', l) -> forall c, In c (sy_issued s) -> In c (sy_issued s').
+Lemma step_issued_mono P s e s' l : step fx P s e = Some (s', l) -> forall c, In c (sy_issued s) -> In c (sy_issued s').
 Proof. intros H c IN. destruct e.
   - apply step_client in H. destruct H as (srv & o & iss & H1 & -> & _). simpl. apply in_or_app; auto.
   - apply step_up in H. destruct H as (m & q & srv & o & lab & H1 & H2 & -> & _). simpl. apply in_or_app; auto.
@@ -1471,14 +1563,14 @@ Qed.
 
 Definition good (s : sys) : Prop := sinv s /\ csound s.
 Lemma good_init nw : good (init_sys nw). Proof. split. apply sinv_init. apply csound_init. Qed.
-Lemma good_step P s e s' l : step P s e = Some (s', l) -> good s -> good s'.
+Lemma good_step P s e s' l : step fx P s e = Some (s', l) -> good s -> good s'.
 Proof. intros H [A B]. split. eapply sinv_step; eauto. eapply csound_step; eauto. Qed.
-Lemma good_run P evs : forall s s' l, good s -> run P s evs = Some (s', l) -> good s'.
+Lemma good_run P evs : forall s s' l, good s -> run fx P s evs = Some (s', l) -> good s'.
 Proof. intros s s' l HI H. eapply (run_inv P good (fun _ => True)); eauto.
   intros. split. eapply good_step; eauto. apply Forall_forall; auto. Qed.
 
 Theorem only_cancelled_work_removed P nw evs s0 l0 e s' l :
-  run P (init_sys nw) evs = Some (s0, l0) -> step P s0 e = Some (s', l) ->
+  run fx P (init_sys nw) evs = Some (s0, l0) -> step fx P s0 e = Some (s', l) ->
   (forall k ws ws' a, nth_error (sy_workers s0) k = Some ws -> nth_error (sy_workers s') k = Some ws' ->
      holds_addr ws a ->
      holds_addr ws' a
@@ -1556,7 +1648,7 @@ Proof. intros H IN. eexists. split. eapply push_down_nth; eauto. apply in_or_app
 
 Lemma cprop_init nw : cprop (init_sys nw). Proof. intros c k ws []. Qed.
 
-Lemma cprop_step P s e s' l : step P s e = Some (s', l) -> sinv s -> cprop s -> cprop s'.
+Lemma cprop_step P s e s' l : step fx P s e = Some (s', l) -> sinv s -> cprop s -> cprop s'.
 Proof.
   intros H [[LU LD WK] BL DR] CP. destruct e.
   - apply step_client in H. destruct H as (srv & o & iss & H1 & -> & _). intros c0 k ws IN W. simpl in *.
@@ -1642,7 +1734,7 @@ Proof.
   right. apply in_rev; auto.
 Qed.
 
-Lemma wstep_tasks P w0 w' out lab : wstep P w0 = Some (w', out, lab) -> keys_ok w0 ->
+Lemma wstep_tasks P w0 w' out lab : wstep fx P w0 = Some (w', out, lab) -> keys_ok w0 ->
   forall t, In t (tasks_of w') -> In t (tasks_of w0).
 Proof.
   unfold wstep. intros H KO t IN. dmH H; [discriminate|].
@@ -1670,7 +1762,7 @@ Proof.
     + match type of H with context[raise_path ?a ?b ?c ?d ?e] => destruct (raise_path a b c d e) as [[w1 o1] lb1] eqn:RP end.
       inv H. apply raise_path_spec in RP. destruct RP as (T1 & T2 & _). simpl in *. rewrite RT in T1. eapply PUT; eauto.
   - match type of H with context[match ?x with Some _ => _ | None => None end] => destruct x as [[[w2 out2] lab2]|] eqn:SH end; [|discriminate].
-    match type of H with context[completion_loop ?a ?b ?c ?d] => destruct (completion_loop a b c d) as [s2|] eqn:CL end; [|discriminate].
+    match type of H with context[completion ?a ?b ?c] => destruct (completion a b c) as [s2|] eqn:CL end; [|discriminate].
     inv H.
     assert (W2 : w_tasks w2 = w_tasks w /\ w_delayed w2 = w_delayed w).
     { destruct (t_addr (rt_task rt0)) as [[dst x1] x2]. destruct (dst =? w_id w).
@@ -1695,7 +1787,7 @@ Proof. unfold dead_on. split.
   - intros H. destruct (existsb (fun c => desc c t) (w_cancelled ws)) eqn:E; auto.
     apply existsb_exists in E. destruct E as (c & C1 & C2). rewrite H in C2; auto. Qed.
 
-Lemma nodead_step P s e s' l : step P s e = Some (s', l) -> sinv s -> overtaken s e = false -> nodead s -> nodead s'.
+Lemma nodead_step P s e s' l : step fx P s e = Some (s', l) -> sinv s -> overtaken s e = false -> nodead s -> nodead s'.
 Proof.
   intros H [[LU LD WK] BL DR] OV ND. destruct e.
   - apply step_client in H. destruct H as (srv & o & iss & H1 & -> & _). exact ND.
@@ -1742,7 +1834,7 @@ Qed.
 Fixpoint no_overtake (P : progs) (s : sys) (evs : list event) : bool :=
   match evs with
   | [] => true
-  | e :: r => negb (overtaken s e) && match step P s e with Some (s1, _) => no_overtake P s1 r | None => true end
+  | e :: r => negb (overtaken s e) && match step fx P s e with Some (s1, _) => no_overtake P s1 r | None => true end
   end.
 
 Lemma In_lookup_b k v l : In (k, v) l -> lookup_b k l <> None.
@@ -1750,19 +1842,19 @@ Proof. induction l as [|[k' v'] l IH]; simpl; intros H. destruct H.
   destruct (Nat.eqb k k') eqn:E. congruence. destruct H as [H|H]. inv H. rewrite Nat.eqb_refl in E. discriminate. auto. Qed.
 
 Lemma run_clean_inv P evs : forall s0 s l, good s0 /\ cprop s0 /\ nodead s0 ->
-  run P s0 evs = Some (s, l) -> no_overtake P s0 evs = true -> good s /\ cprop s /\ nodead s.
+  run fx P s0 evs = Some (s, l) -> no_overtake P s0 evs = true -> good s /\ cprop s /\ nodead s.
 Proof.
   induction evs as [|e r IH]; intros s0 s l G0 R NO; simpl in *.
   - inv R. auto.
-  - destruct (step P s0 e) as [[s1 l1]|] eqn:ST; [|discriminate].
-    destruct (run P s1 r) as [[s2 l2]|] eqn:RR; [|discriminate]. inv R.
+  - destruct (step fx P s0 e) as [[s1 l1]|] eqn:ST; [|discriminate].
+    destruct (run fx P s1 r) as [[s2 l2]|] eqn:RR; [|discriminate]. inv R.
     apply andb_true_iff in NO. destruct NO as [NO1 NO2]. apply negb_true_iff in NO1.
     destruct G0 as ([SI CS] & CP & ND). eapply IH; eauto. split; [split|split].
     eapply sinv_step; eauto. eapply csound_step; eauto. eapply cprop_step; eauto. eapply nodead_step; eauto.
 Qed.
 
 Theorem quiescent_clean_partial P nw evs s l :
-  run P (init_sys nw) evs = Some (s, l) -> no_overtake P (init_sys nw) evs = true ->
+  run fx P (init_sys nw) evs = Some (s, l) -> no_overtake P (init_sys nw) evs = true ->
   quiescent s = true -> clean s = true.
 Proof.
   intros R NO Q.
@@ -2170,7 +2262,7 @@ Proof.
 Qed.
 
 (* ------------------------------------------------------------------ C12_client_cancel / C12_client_disconnect *)
-Lemma step_server P s e s' l : step P s e = Some (s', l) -> srv_inv (sy_server s) ->
+Lemma step_server P s e s' l : step fx P s e = Some (s', l) -> srv_inv (sy_server s) ->
   srv_inv (sy_server s') /\ sext (sy_server s) (sy_server s').
 Proof.
   intros H I. destruct e.
@@ -2180,18 +2272,18 @@ Proof.
   - apply step_step in H. destruct H as (ws & q & ws' & out & H1 & H2 & H3 & ->). simpl. split; auto. apply sext_refl.
 Qed.
 
-Lemma run_server P evs : forall s s' l, run P s evs = Some (s', l) -> srv_inv (sy_server s) ->
+Lemma run_server P evs : forall s s' l, run fx P s evs = Some (s', l) -> srv_inv (sy_server s) ->
   srv_inv (sy_server s') /\ sext (sy_server s) (sy_server s').
 Proof.
   induction evs as [|e r IH]; intros s s' l H I; simpl in H.
   - inv H. split; auto. apply sext_refl.
-  - destruct (step P s e) as [[s1 l1]|] eqn:S; [|discriminate].
-    destruct (run P s1 r) as [[s2 l2]|] eqn:R; [|discriminate]. inv H.
+  - destruct (step fx P s e) as [[s1 l1]|] eqn:S; [|discriminate].
+    destruct (run fx P s1 r) as [[s2 l2]|] eqn:R; [|discriminate]. inv H.
     destruct (step_server _ _ _ _ _ S I) as [I1 [E1 E2]]. destruct (IH _ _ _ R I1) as [I2 [E3 E4]]. split; auto.
     split. lia. intros mb L N. apply E4. lia. apply E2; auto.
 Qed.
 
-Lemma srv_inv_reach P nw evs s l : run P (init_sys nw) evs = Some (s, l) -> srv_inv (sy_server s).
+Lemma srv_inv_reach P nw evs s l : run fx P (init_sys nw) evs = Some (s, l) -> srv_inv (sy_server s).
 Proof. intros H. eapply run_server in H. tauto. simpl. apply srv_inv_init. Qed.
 
 Lemma filter_seq_eq k : forall n a, a <= k < a + n -> filter (fun w => w =? k) (seq a n) = [k].
@@ -2215,13 +2307,13 @@ Lemma sup_discards nw mb slot v by_ asg s : lookup_n mb (s_boxes s) = None ->
 Proof. intros H. simpl. rewrite H. auto. Qed.
 
 Theorem client_cancel P nw evs s0 l0 c id asg s1 l1 :
-  run P (init_sys nw) evs = Some (s0, l0) -> step P s0 (EClient c (CCancel id) asg) = Some (s1, l1) ->
+  run fx P (init_sys nw) evs = Some (s0, l0) -> step fx P s0 (EClient c (CCancel id) asg) = Some (s1, l1) ->
   exists mb owner, lookup_n id (s_tasks (sy_server s0)) = Some (mb, owner)
     /\ lookup_n mb (s_boxes (sy_server s1)) = None
     /\ (forall ids, lookup_n owner (s_clients (sy_server s1)) = Some ids -> ~ In id ids)
     /\ (forall k q, nth_error (sy_down s0) k = Some q -> nth_error (sy_down s1) k = Some (q ++ [MCancel (0, mb, 0)]))
     /\ sy_issued s1 = sy_issued s0 ++ [(0, mb, 0)]
-    /\ (forall evs2 s2 l2, run P s1 evs2 = Some (s2, l2) -> lookup_n mb (s_boxes (sy_server s2)) = None).
+    /\ (forall evs2 s2 l2, run fx P s1 evs2 = Some (s2, l2) -> lookup_n mb (s_boxes (sy_server s2)) = None).
 Proof.
   intros R ST. pose proof (srv_inv_reach _ _ _ _ _ R) as I.
   assert (SI : sinv s0) by (eapply run_sinv; eauto; apply sinv_init). destruct SI as [[LU LD WK] _ _].
@@ -2236,13 +2328,13 @@ Proof.
 Qed.
 
 Theorem client_disconnect P nw evs s0 l0 c order asg s1 l1 :
-  run P (init_sys nw) evs = Some (s0, l0) -> step P s0 (EClient c (CDisconnect order) asg) = Some (s1, l1) ->
+  run fx P (init_sys nw) evs = Some (s0, l0) -> step fx P s0 (EClient c (CDisconnect order) asg) = Some (s1, l1) ->
   lookup_n c (s_clients (sy_server s1)) = None
   /\ (forall id mb, ~ In (id, (mb, c)) (s_tasks (sy_server s1)))
   /\ (forall id mb, lookup_n id (s_tasks (sy_server s0)) = Some (mb, c) ->
         lookup_n id (s_tasks (sy_server s1)) = None /\ lookup_n mb (s_m2t (sy_server s1)) = None
         /\ lookup_n mb (s_boxes (sy_server s1)) = None
-        /\ forall evs2 s2 l2, run P s1 evs2 = Some (s2, l2) -> lookup_n mb (s_boxes (sy_server s2)) = None)
+        /\ forall evs2 s2 l2, run fx P s1 evs2 = Some (s2, l2) -> lookup_n mb (s_boxes (sy_server s2)) = None)
   /\ (forall a, In a (sy_issued s1) -> In a (sy_issued s0)
         \/ exists id mb, lookup_n id (s_tasks (sy_server s0)) = Some (mb, c) /\ a = (0, mb, 0))
   /\ (forall a k q, In a (sy_issued s1) -> ~ In a (sy_issued s0) -> nth_error (sy_down s1) k = Some q -> In (MCancel a) q).
@@ -2264,3 +2356,5 @@ Proof.
     destruct (nth_error (sy_down s0) k) as [q0|] eqn:Q0; [|apply nth_error_None in Q0; lia].
     destruct (push_down_has (o_down o) _ _ _ (MCancel a) Q0 (BC _ _ IN KL)) as (q' & X1 & X2). rewrite Q in X1. inv X1. auto.
 Qed.
+
+End FixT.
